@@ -10,7 +10,7 @@ for f in sorted(glob.glob(os.path.join(ROOT, "seeded", "*", "meta.json"))):
     quiet = [k.split("/")[0] for k, v in det.items() if not (v["exit"] == 1 and v["violations"] > 0)]
     first = next((v["first_signatures"][0] for k, v in det.items() if k.startswith(m["property"]) and v.get("first_signatures")), "")
     c = m.get("confirmed")
-    rows.append((m["id"], m["property"], m.get("round", 1), m.get("change", ""), m.get("needs_to_manifest", ""), "yes" if isinstance(c, dict) and c.get("ok") else str(c), ", ".join(caught) or "-", ", ".join(quiet) or "-", first.split(" :: ")[0]))
+    rows.append((m["id"], m["property"], m.get("round", 1), m.get("change", "") + ((" -- " + m["verdict"]) if m.get("verdict") else ""), m.get("needs_to_manifest", ""), "yes" if isinstance(c, dict) and c.get("ok") else str(c), ", ".join(caught) or "-", ", ".join(quiet) or "-", first.split(" :: ")[0]))
 with open(os.path.join(ROOT, "seeded", "README.md"), "w") as out:
     out.write("# Independently written breakages\n\nEach directory holds `patch.diff` (against `base_commit` of /repo), the author's `demo.py` and `note.md`, and `meta.json` "
               "(what it breaks, what it needs to manifest, what was run, which checks report it). Authors were sub-agents that saw only the property text and a scratch worktree - nothing from /verif. "
@@ -20,5 +20,6 @@ with open(os.path.join(ROOT, "seeded", "README.md"), "w") as out:
         out.write("| " + " | ".join(str(x).replace("|", "\\|") for x in r) + " |\n")
     n = len(rows)
     own = sum(1 for r in rows if r[1] in r[6].split(", "))
-    out.write(f"\n{n} changes; {own} reported by the quick check of the property they were written against.\n")
+    anyc = sum(1 for r in rows if r[6] != "-")
+    out.write(f"\n{n} changes; {own} reported by the quick check of the property they were written against, {anyc} by at least one quick check; the remainder carry a verdict in the change column explaining why they are outside the property as stated.\n")
 print(len(rows), "rows")
